@@ -7,8 +7,9 @@ CONSTANTS
   Plan = "three"
   Kinds = {"good", "wrongid"}
   MaxFlips = 1
-  AllowCancel = FALSE
+  MaxReplies = 3
+  AllowCancel = TRUE
   AllowDestroy = TRUE
   PortReuse = TRUE
-INVARIANTS WIdReuse
+INVARIANTS ICompleteOnce INoTxAfterDone ITxBound ISlots IArmed IMatch IDelivered IFailover IQuiescent IDestroyed IMemSafe INas IDuration
 CHECK_DEADLOCK FALSE
